@@ -133,7 +133,7 @@ def main():
     ap.add_argument("--cases", required=True)
     ap.add_argument("--build", required=True)
     ap.add_argument("--jobs", type=int, default=8)
-    ap.add_argument("--shard", type=int, default=36, help="goals per generated file")
+    ap.add_argument("--shard", type=int, default=45, help="goals per generated file")
     ap.add_argument("--timeout", type=int, default=900)
     a = ap.parse_args()
     t0 = time.time()
@@ -176,7 +176,9 @@ def main():
                 if len(samples) < 4 and f[2] in ("rand", "stdpar"):
                     samples.append(f[11])
     # shards: consecutive goals go to different files so that projections are spread evenly
-    nshards = max(1, (len(goals) + a.shard - 1) // a.shard)
+    per_round = max(1, a.jobs) * a.shard
+    nshards = max(1, a.jobs) * max(1, (len(goals) + per_round - 1) // per_round)   # whole rounds of parallel coqc
+    nshards = max(1, min(nshards, len(goals)))
     shards = [goals[i::nshards] for i in range(nshards)]
     bad_total, slow, notes = 0, 0.0, []
     with ThreadPoolExecutor(max_workers=max(1, a.jobs)) as ex:
